@@ -27,6 +27,7 @@ import (
 )
 
 const shardID = 1
+const shardID2 = 2      // the second shard of the twoShards dimension
 const codeRefused = 100 // the API call returned an error without accepting the request
 
 type opRec struct {
@@ -73,6 +74,19 @@ type histCfg struct {
 	snapSnappy   bool // Config.SnapshotCompressionType = Snappy
 	preVote      bool // Config.PreVote
 	powerLoss    bool // hosts on a strict file system; a voter (and the non-voting host) lose power while clients run
+	voters       int  // initial voters: 1 (ReadIndex shortcut of a single voter shard), 3 or 5
+	twoShards    bool // a second shard on the same hosts, loaded by its own client, shares the engine's workers
+}
+
+// initialVoters returns the host indexes of the initial voters.
+func (c histCfg) initialVoters() []int {
+	switch c.voters {
+	case 1:
+		return []int{0}
+	case 5:
+		return []int{0, 1, 2, 7, 8}
+	}
+	return []int{0, 1, 2}
 }
 
 // roles of the hosts (index = replica id - 1)
@@ -84,7 +98,9 @@ const (
 	roleRemoved
 )
 
-const maxHosts = 7 // 1-3 initial voters, 4 non-voting, 5 voter added later, 6 witness, 7 non-voting added in the restore scenario
+// hosts (index = replica id - 1): 1-3 initial voters, 4 non-voting, 5 voter added later,
+// 6 witness, 7 non-voting added in the restore scenario, 8-9 initial voters of a 5 voter shard
+const maxHosts = 9
 
 type cluster struct {
 	cfg    histCfg
@@ -103,6 +119,7 @@ type cluster struct {
 	noteMu sync.Mutex
 	fss    []config.IFS
 	strict []*c01hooks.StrictFS // per host, nil unless cfg.powerLoss
+	rec2   *recorder            // the state machines of the second shard (cfg.twoShards)
 	role   []int                // guarded by mu
 	paused int32                // clients and faults pause (idle period of the quiesce dimension)
 	avoid  int32                // host index + 1 that admin requests do not go to (it is cut off), 0 = none
@@ -203,6 +220,75 @@ func (c *cluster) startReplica(nh *dragonboat.NodeHost, members map[uint64]drago
 	return nh.StartReplica(members, join, c.rec.factory(), rc)
 }
 
+// startShard2 starts the replica of the second shard on an initial voter's host
+// (regular state machine, same raft settings).
+func (c *cluster) startShard2(nh *dragonboat.NodeHost, i int, first bool) error {
+	if !c.cfg.twoShards {
+		return nil
+	}
+	in := false
+	members := map[uint64]dragonboat.Target{}
+	for _, v := range c.cfg.initialVoters() {
+		members[uint64(v+1)] = c.addrs[v]
+		if v == i {
+			in = true
+		}
+	}
+	if !in {
+		return nil
+	}
+	if !first {
+		members = nil
+	}
+	rc := c.raftConfig(uint64(i+1), false)
+	rc.ShardID = shardID2
+	rc.SnapshotEntries = 30
+	rc.DisableAutoCompactions = false
+	return nh.StartReplica(members, false, c.rec2.factory(), rc)
+}
+
+// shard2Loop loads the second shard: writes and linearizable reads through the
+// initial voters' hosts. The second shard is not a history of its own; its apply
+// streams are compared and it shares the workers of the engine with the first.
+func (c *cluster) shard2Loop(stop <-chan struct{}, wg *sync.WaitGroup) {
+	defer wg.Done()
+	r := subRand(c.cfg.seed, 222)
+	voters := c.cfg.initialVoters()
+	var n uint64
+	for {
+		select {
+		case <-stop:
+			return
+		default:
+		}
+		i := voters[r.Intn(len(voters))]
+		nh := c.get(i)
+		if nh == nil || atomic.LoadInt32(&c.paused) != 0 {
+			time.Sleep(2 * time.Millisecond)
+			continue
+		}
+		func() {
+			defer func() {
+				if p := recover(); p != nil {
+					c.clientPanic(p)
+				}
+			}()
+			ctx, cancel := context.WithTimeout(context.Background(), 200*time.Millisecond)
+			defer cancel()
+			if r.Bool() {
+				n++
+				_, err := nh.SyncPropose(ctx, nh.GetNoOPSession(shardID2), encodeCmd(shard2Tag|n, uint64(1+r.Intn(3)), r.U64(), 0, 0))
+				if err == nil {
+					c.note("shard2_writes")
+				}
+			} else if _, err := nh.SyncRead(ctx, shardID2, uint64(1+r.Intn(3))); err == nil {
+				c.note("shard2_reads")
+			}
+		}()
+		time.Sleep(time.Duration(r.Intn(6000)) * time.Microsecond)
+	}
+}
+
 func (c *cluster) get(i int) *dragonboat.NodeHost {
 	c.mu.RLock()
 	defer c.mu.RUnlock()
@@ -251,12 +337,16 @@ func startCluster(cfg histCfg) (*cluster, error) {
 	if cfg.slowReplica != 0 {
 		c.rec.slow = map[uint64]time.Duration{cfg.slowReplica: cfg.slowDwell}
 	}
+	c.rec2 = newRecorder()
+	c.rec2.shard2 = true
 	members := map[uint64]dragonboat.Target{}
 	for i := 0; i < n; i++ {
 		addr := fmt.Sprintf("%s-n%d:1", cfg.name, i+1)
 		c.addrs = append(c.addrs, addr)
-		if i < 3 {
-			members[uint64(i+1)] = addr
+		for _, v := range cfg.initialVoters() {
+			if v == i {
+				members[uint64(i+1)] = addr
+			}
 		}
 		ex := config.GetDefaultExpertConfig()
 		ex.FS = c01hooks.NewMemFS()
@@ -279,7 +369,7 @@ func startCluster(cfg histCfg) (*cluster, error) {
 			Expert:         ex,
 		})
 	}
-	for i := 0; i < 3; i++ {
+	for _, i := range cfg.initialVoters() {
 		nh, err := dragonboat.NewNodeHost(c.nhcs[i])
 		if err != nil {
 			return nil, fmt.Errorf("NewNodeHost %d: %w", i+1, err)
@@ -288,6 +378,11 @@ func startCluster(cfg histCfg) (*cluster, error) {
 		c.role[i] = roleVoter
 		if err := c.startReplica(nh, members, false, c.raftConfig(uint64(i+1), false)); err != nil {
 			return nil, fmt.Errorf("StartReplica %d: %w", i+1, err)
+		}
+	}
+	for _, i := range cfg.initialVoters() {
+		if err := c.startShard2(c.hosts[i], i, true); err != nil {
+			return nil, fmt.Errorf("StartReplica of the second shard on host %d: %w", i+1, err)
 		}
 	}
 	// wait for a leader
@@ -884,6 +979,9 @@ func (c *cluster) restartHost(i int, r *vh.Rand) {
 		nh2.Close()
 		return
 	}
+	if err := c.startShard2(nh2, i, false); err != nil {
+		c.note("restart_start_shard2_failed:" + err.Error())
+	}
 	c.set(i, nh2)
 }
 
@@ -934,6 +1032,9 @@ func (c *cluster) powerLoss(hosts []int, r *vh.Rand) {
 			c.violation("host %d did not come back after a power loss: StartReplica: %v", i+1, err)
 			nh2.Close()
 			continue
+		}
+		if err := c.startShard2(nh2, i, false); err != nil {
+			c.violation("host %d did not come back after a power loss: second shard: %v", i+1, err)
 		}
 		c.set(i, nh2)
 	}
@@ -1128,10 +1229,10 @@ func (c *cluster) nemesis(stop <-chan struct{}, wg *sync.WaitGroup) {
 			sched = sched[1:]
 			switch what {
 			case "restart":
-				c.restartHost(r.Intn(3), r)
+				c.restartHost(c.someVoter(r), r)
 			case "powerloss":
 				// a voter; with the non-voting host at the same instant every other time
-				hs := []int{r.Intn(3)}
+				hs := []int{c.someVoter(r)}
 				if r.Bool() {
 					hs = append(hs, 3)
 				}
@@ -1181,7 +1282,7 @@ func (c *cluster) nemesis(stop <-chan struct{}, wg *sync.WaitGroup) {
 			c.note("heal")
 		case 2: // symmetric partition: isolate one host
 			c.net.heal()
-			v := r.Intn(len(c.addrs))
+			v := c.someHost(r)
 			for j := range c.addrs {
 				if j != v {
 					c.net.block(c.addrs[v], c.addrs[j])
@@ -1192,7 +1293,7 @@ func (c *cluster) nemesis(stop <-chan struct{}, wg *sync.WaitGroup) {
 		case 3: // asymmetric: one or two directed links
 			c.net.heal()
 			for k := 0; k < 1+r.Intn(2); k++ {
-				a, b := r.Intn(len(c.addrs)), r.Intn(len(c.addrs))
+				a, b := c.someHost(r), c.someHost(r)
 				if a != b {
 					c.net.block(c.addrs[a], c.addrs[b])
 				}
@@ -1200,7 +1301,7 @@ func (c *cluster) nemesis(stop <-chan struct{}, wg *sync.WaitGroup) {
 			c.note("partition_asym")
 		case 4: // one host cannot send (hears everything)
 			c.net.heal()
-			v := r.Intn(len(c.addrs))
+			v := c.someHost(r)
 			for j := range c.addrs {
 				if j != v {
 					c.net.block(c.addrs[v], c.addrs[j])
@@ -1217,7 +1318,7 @@ func (c *cluster) nemesis(stop <-chan struct{}, wg *sync.WaitGroup) {
 					continue
 				}
 				if lid, _, ok, _ := nh.GetLeaderID(shardID); ok {
-					target := uint64(1 + r.Intn(5))
+					target := uint64(c.someVoter(r) + 1)
 					if target != lid && c.roleOf(int(target-1)) == roleVoter {
 						_ = nh.RequestLeaderTransfer(shardID, target)
 						c.note("leader_transfer")
@@ -1297,6 +1398,27 @@ func (c *cluster) upVoters() []int {
 		}
 	}
 	return v
+}
+
+// someHost picks a host that is up, someVoter one that runs a voting replica.
+func (c *cluster) someHost(r *vh.Rand) int {
+	var up []int
+	for i := 0; i < maxHosts; i++ {
+		if c.get(i) != nil {
+			up = append(up, i)
+		}
+	}
+	if len(up) == 0 {
+		return 0
+	}
+	return up[r.Intn(len(up))]
+}
+
+func (c *cluster) someVoter(r *vh.Rand) int {
+	if v := c.upVoters(); len(v) > 0 {
+		return v[r.Intn(len(v))]
+	}
+	return 0
 }
 
 // leaderHost returns the host that says of itself that it leads (-1 = none).
@@ -1753,6 +1875,10 @@ func runHistory(cfg histCfg) (*histResult, error) {
 		wg.Add(1)
 		go c.burstLoop(stop, &wg)
 	}
+	if cfg.twoShards {
+		wg.Add(1)
+		go c.shard2Loop(stop, &wg)
+	}
 	nstop := make(chan struct{})
 	nwg.Add(1)
 	go c.nemesis(nstop, &nwg)
@@ -1926,6 +2052,23 @@ func runHistory(cfg histCfg) (*histResult, error) {
 		if counts[rep] == maxCount && fmt.Sprint(st) != fmt.Sprint(res.final) {
 			bad = append(bad, fmt.Sprintf("replica %d final state differs at the same applied count", rep))
 		}
+	}
+	if cfg.twoShards {
+		// the second shard: its replicas agree index by index as well
+		c.rec2.mu.Lock()
+		bad = append(bad, c.rec2.bad...)
+		by2 := map[uint64]applyRec{}
+		for _, a := range c.rec2.applies {
+			if b, ok := by2[a.index]; ok {
+				if b.id != a.id || b.key != a.key || b.val != a.val || b.prev != a.prev || b.ver != a.ver || b.count != a.count {
+					bad = append(bad, fmt.Sprintf("second shard: replicas %d and %d disagree at index %d", b.replica, a.replica, a.index))
+				}
+			} else {
+				by2[a.index] = a
+			}
+		}
+		c.notes["shard2_entries"] = len(by2)
+		c.rec2.mu.Unlock()
 	}
 	res.finalOK = settled && maxCount == uint64(len(res.log))
 	if len(bad) > 0 {
